@@ -232,12 +232,13 @@ func Cmp(ei, ej Object) int {
 	case STRING:
 		return cmp.Compare(ei.(String).Value, ej.(String).Value)
 
-	case QUOTE:
-		// quote() results are values a program can hold, so they can end up compared (==, min, map keys).
+	case QUOTE, MACRO:
+		// quote() results are values a program can hold, so they can end up compared (==, min, map keys);
+		// macros are compared when an upper case (constant) macro name is defined again.
 		return cmp.Compare(ei.Inspect(), ej.Inspect())
 
-	// RETURN, MACRO, ANY aren't expected to be compared.
-	case RETURN, MACRO, UNKNOWN, ANY:
+	// RETURN, ANY aren't expected to be compared.
+	case RETURN, UNKNOWN, ANY:
 		panic(fmt.Sprintf("Unexpected type in Cmp: %s", ti))
 	}
 	return 1
